@@ -155,8 +155,19 @@ would get removed without actually deleting that already.
     recipes.parse(defines)
 
     if args.mode == 'attic':
-        delPaths = sorted(d for d in BobState().getAtticDirectories()
-            if os.path.exists(d) and (args.force or checkAtticSource(d, args.verbose)))
+        atticDirs = [ d for d in BobState().getAtticDirectories() if os.path.exists(d) ]
+        if args.force:
+            delPaths = sorted(atticDirs)
+        else:
+            # Nested SCMs are moved to the attic together with their parent
+            # and are tracked as separate attic directories. A directory
+            # must not be removed as long as any SCM below it is not
+            # expendable.
+            expendable = { d : checkAtticSource(d, args.verbose) for d in atticDirs }
+            def isBelow(d, parent):
+                return d == parent or d.startswith(parent + os.sep)
+            delPaths = sorted(d for d in atticDirs
+                if all(expendable[n] for n in atticDirs if isBelow(n, d)))
     elif args.mode == 'shared':
         delPaths = []
         share = getShare(recipes.getShareConfig())
